@@ -52,8 +52,9 @@
 (* twice for the bookkeeping: CascadeClean (no file disappears) and            *)
 (* CascadeRemovesOrphans (some tile above level s had no tile of level s below *)
 (* it: data tile files disappear, ghost `pruned`).  What follows from the      *)
-(* ideal rule and a user may not expect: a cascade started BELOW the data      *)
-(* (Sample(1); Cascade(2)) finds an empty start level and erases the pyramid,  *)
+(* ideal rule and a user may not expect: a cascade started from a level DEEPER  *)
+(* than the data (Sample(1); Cascade(2)) finds an empty start level and erases  *)
+(* the whole pyramid (CascadeOperator, CascadePrunesOnlyAfterShrink),           *)
 (* and an OUTPUT tile of a removed data tile goes stale exactly as after a     *)
 (* shrinking Sample.                                                           *)
 (*                                                                           *)
@@ -222,7 +223,7 @@ CascadeStep(cmd, prunes) ==
     /\ pruned' = (pruned \/ \E p \in Pos : data[p].ex /\ ~data'[p].ex)
     /\ UNCHANGED <<out, wtml, bld, base, removed, rebased>>
 CascadeClean(cmd) == CascadeStep(cmd, FALSE)              \* tiles are written or rewritten, no file disappears
-\* tiles whose leaves no longer exist are removed, children before parents (PrunesExactlyWhenStale: pruned' holds)
+\* tiles whose leaves no longer exist are removed, children before parents (PrunesExactlyWhenStale: exactly these steps set `pruned`)
 CascadeRemovesOrphans(cmd) == CascadeStep(cmd, TRUE)
 
 TransformStep(cmd, deviates) ==
@@ -282,9 +283,6 @@ StandardSequenceExact ==
 \*     at any moment (not only after a cascade) and no tiles deeper than the sampled depth
 NoShrinkNoOrphan == ~shrunk => /\ \A p \in Pos : p[1] < base => ~Orphan(p)
                                /\ \A p \in DataPos : p[1] <= base
-\*     ... and then a cascade removes files only when it is started below the data, and it removes EVERYTHING
-\*     (Sample(1); Cascade(2): the start level is empty, so nothing may exist above it)
-PruneWithoutShrinkErases == (pruned /\ ~shrunk /\ DataPos # {}) => \A p \in DataPos : p[1] = base
 \* (6) re-running the cascade: on the promised levels it is a no-op; in general it is idempotent
 \*     (every state reached by Cascade(s) promises 0 .. s-1, so this is "Cascade(s); Cascade(s) = Cascade(s)")
 RecascadeNoOp == \A s \in 0..MaxDepth : (0..(s - 1)) \subseteq cons => CascadeResult(data, s) = data
@@ -298,11 +296,13 @@ CascadeOperator == \A s \in 0..MaxDepth :
     /\ r = IdealResult(data, s)
     /\ \A p \in Pos : p[1] < s => /\ r[p].ex <=> LeafBelow(p, s)
                                   /\ r[p] = MergeIdeal(KidTiles(r, p))
+    /\ (\A l \in Level(s) : ~data[l].ex) => \A p \in Pos : p[1] < s => ~r[p].ex      \* an empty start level erases everything above
     /\ CascadeResult(r, s) = r
     /\ StaleAbove(data, s) <=> (\E p \in Pos : data[p].ex /\ ~r[p].ex)
-\*     ... the ghost agrees: `pruned` is set by exactly the steps named CascadeRemovesOrphans (action property)
-PrunesExactlyWhenStale == [][\A s \in 0..MaxDepth : (data' = CascadeResult(data, s) /\ data' # data /\ n' = n + 1 /\ out' = out /\ bld' = bld /\ wtml' = wtml /\ base' = base /\ removed' = removed)
-                                 => TRUE]_vars
+\*     ... the last line alone (cheap enough for every state): the steps named CascadeRemovesOrphans are exactly
+\*     the steps that set the ghost `pruned`
+PrunesExactlyWhenStale == \A s \in 0..MaxDepth :
+    StaleAbove(data, s) <=> (\E p \in Pos : data[p].ex /\ ~CascadeResult(data, s)[p].ex)
 
 \* ---- Transform
 \* (8) on the promised levels every data tile has its output tile, pixel for pixel
@@ -335,10 +335,11 @@ UnsampledBuilderLevelsZero == ~bld.sampled => bld.levels = 0
 
 \* ---- statements that are NOT true of the code as built (TLC must refute each: negative controls, and the
 \*      counterexamples are the shortest command sequences that leave stale data behind or lose data)
-\* a cascade deletes files only after some Sample shrank the pyramid (it also does when started below the data)
+\* a cascade deletes files only after some Sample shrank the pyramid (it also does when started from a level deeper
+\* than the data: Sample(d); Cascade(d + 1) erases the sampled tiles)
 CascadePrunesOnlyAfterShrink == pruned => shrunk
 \* without a shrinking Sample outputs exist only where data exists (a theorem until the repair of walk_callback:
-\* now a cascade started below the data deletes the data tiles and leaves their outputs)
+\* now a cascade started deeper than the data deletes the data tiles and leaves their outputs)
 NoShrinkNoStaleOutput == ~shrunk => OutPos \subseteq DataPos
 \* a sample at a shallower depth after a deeper cascade leaves nothing deeper than the sampled depth
 NothingDeeperThanBase == \A p \in DataPos : p[1] <= base
